@@ -599,8 +599,28 @@ def check(run: Run) -> None:
             run.finding("C01.k", "mesh_subscribe_evaluate_impl:gate-does-not-pause", "a dependency that is not available must pause the reader (`if (!add_dependency(..)) return false;`)",
                         loc=fa.loc(fa.body))
 
+    with run.obligation("C01.l", "K2", "rank dependencies declared by pre-rank finalizers (the keyed request / reply and subscription transports declare ALL their service-rank contracts "
+                        "that way) take part in the ranking: on both finish paths (top level and sub-graph) the extensions are finalised first, then the service rank "
+                        "dependencies are applied, then the graph is ranked - applied before the finalizers ran, the contracts they declare are silently dropped"):
+        for nm in ("Wiring::finish_top_level", "Wiring::finish_subgraph"):
+            fa_ = R.fn(run, WIRING, nm)
+            fl_ = R.flow(run, fa_)
+            fin = R.call_is(name="finalize_extensions")
+            app = R.call_is(name="apply_service_rank_dependencies")
+            rank = R.call_is(name="build_ranked_graph")
+            R.k2_precede(run, "C01.l", fl_, fin, app, f"{nm}: finalize_extensions before apply_service_rank_dependencies")
+            R.k2_precede(run, "C01.l", fl_, app, rank, f"{nm}: apply_service_rank_dependencies before build_ranked_graph")
+            # ... and a LAST apply follows the last finalisation: no path from finalize_extensions reaches the ranking without an apply in between
+            w = fl_.reach(fl_.states_of(fin), targets=rank, avoid=app)
+            run.count(1, "C01.l")
+            if w is not None:
+                run.finding("C01.l", f"{nm.split('::')[-1]}:rank-dependencies-applied-before-finalizers", f"{nm}: build_ranked_graph is reachable from finalize_extensions without an "
+                            f"apply_service_rank_dependencies in between: rank contracts declared by the finalizers never reach the ranking: {fl_.path_text(w)}",
+                            loc=fl_.cfg.describe(w[-1][0]))
+
 
 VARIANTS = [
+    {"id": "l-seed-C01-9-subgraph-applies-rank-dependencies-before-finalizers", "expect": "C01.l", "edits": [{"file": WIRING, "find": "  finalize_extensions();", "replace": "  apply_service_rank_dependencies();\n  finalize_extensions();", "nth": 1}, {"file": WIRING, "find": "  apply_service_rank_dependencies();\n", "replace": "", "nth": 2}]},
     {"id": "k-seed-C01-8-gate-only-when-dependency-changed", "expect": "C01.k", "edits": [{"file": "src/hgraph/runtime/mesh_node.cpp", "find": "    storage.has_dependency = true;\n  }\n\n  // Register the dependency (creating / ranking the target on demand). If the\n  // target is not yet available this cycle, PAUSE: the mesh resolves it in rank\n  // order and re-evaluates this instance to resume from here.\n  if (!mesh->add_dependency(my_key, item.view())) {\n    return false;\n  }", "replace": "    storage.has_dependency = true;\n    if (!mesh->add_dependency(my_key, item.view())) {\n      return false;\n    }\n  }"}]},
     {"id": "h-seed-C01-7-paused-dependency-reads-as-idle", "expect": "C01.h", "edits": [{"file": "src/hgraph/runtime/mesh_node.cpp", "find": "  if (dep_entry->paused || !dep_entry->graph.has_value()) {\n    return false;\n  }\n  return dep_entry->graph.view().next_scheduled_time() > t;", "replace": "  if (!dep_entry->graph.has_value()) {\n    return false;\n  }\n  return dep_entry->graph.view().next_scheduled_time() > t;"}]},
     {"id": "j-seed-C01-5-rank-free-flag-not-in-key", "expect": "C01.j", "edits": [{"file": WIRING, "find": "        .rank_dependency = input.rank_dependency,\n        .passive = input.source.arg_tag", "replace": "        .passive = input.source.arg_tag"}]},
